@@ -20,7 +20,18 @@ sys.path.insert(0, os.path.dirname(os.path.abspath(__file__)))
 import canon  # noqa: E402
 
 
+class Hang(BaseException):
+    pass
+
+
+def _on_alarm(signum, frame):
+    raise Hang()
+
+
 def main():
+    import signal
+    signal.signal(signal.SIGALRM, _on_alarm)
+    limit = float(os.environ.get("MSQ_REQ_TIMEOUT", "5"))
     out = sys.stdout
     flush_each = "--interactive" in sys.argv
     for line in sys.stdin:
@@ -28,7 +39,14 @@ def main():
         if not line:
             continue
         try:
-            out.write(canon.respond(line, cfg_idx) + "\n")
+            signal.setitimer(signal.ITIMER_REAL, limit)
+            try:
+                ans = canon.respond(line, cfg_idx)
+            finally:
+                signal.setitimer(signal.ITIMER_REAL, 0)
+            out.write(ans + "\n")
+        except Hang:
+            out.write("HANG\n")
         except Exception as e:  # harness bug, never silently swallowed
             out.write("HARNESS-ERROR %s: %s\n" % (type(e).__name__, str(e).replace("\n", " ")[:200]))
         if flush_each:
